@@ -78,8 +78,10 @@ def run(F, chk):
     M2.floor('fill_buf impl', len(fb), 1)
     M3.floor('consume impl', len(cs), 1)
     M3.floor('read impl', len(rd), 1)
+    M4 = chk.rule('M4', 'fill_buf: the buffer-full exit is only reached with pos < CACHE_LINE_SIZE (compacted, or not needing compaction), so a full buffer holds more than the low mark')
     for b in fb:
         check_fill(b, M2)
+        check_full_exit(b, M4, cl)
     for b in cs:
         cfg = CFG(b)
         E = ExprBuilder(cfg, fold_named=True)
@@ -206,3 +208,61 @@ def check_fill(b, M2):
                 else:
                     M2.violation(('return-slice', b.path), 'fill_buf returns %s instead of &buf[pos..cap]' % e[:100], where=b.loc(s.sp))
     M2.floor('Ok return definitions in fill_buf', okdefs, 1)
+
+
+def check_full_exit(b, M4, cl):
+    """`read == free space` only proves "at least low_mark buffered" when pos is small: buffered = len - pos > len - CACHE_LINE >= low_mark
+    (constructor assert).  So every path from the loop head to that exit must pass the compaction (pos = offset) or the
+    false edge of `pos >= CACHE_LINE_SIZE`."""
+    from paths import Explorer
+    cfg = CFG(b)
+    E = ExprBuilder(cfg, fold_named=True)
+    M4.fn(b.path)
+    loops = cfg.loops()
+    if not loops:
+        M4.violation(('anchor-lost', 'loop', b.path), 'no refill loop found')
+        return
+    hd = sorted(loops, key=lambda h: -len(loops[h]))[0]
+    compaction = set()
+    for blk in b.blocks:
+        if blk.cleanup:
+            continue
+        for s in blk.stmts:
+            if s.k == 'assign' and show(E.target(s.place)) == '(*self).pos':
+                compaction.add(blk.i)
+    full_exits = []
+    for blk in b.blocks:
+        if blk.cleanup or blk.term.k != 'switch':
+            continue
+        c = show(E.switch_cond(blk))
+        if c.startswith('Eq(') and 'Read::read(' in c and 'Sub(' in c and '.cap' in c:
+            full_exits.append(blk)
+    M4.floor('compaction sites (pos = offset) in fill_buf', len(compaction), 1)
+    M4.floor('buffer-full exits (read == free space) in fill_buf', len(full_exits), 1)
+
+    def block_effect(blk, facts):
+        if blk.i == hd:
+            facts = frozenset(f for f in facts if f != ('small_pos',))
+        if blk.i in compaction:
+            facts = frozenset(facts | {('small_pos',)})
+        return facts
+
+    def edge_effect(blk, tgt, facts):
+        if blk.term.k == 'switch':
+            c = show(E.switch_cond(blk))
+            if re.match(r'Ge\(\(\*self\)\.pos, %d\)$' % cl, c):
+                for v, t in blk.term.d['vals']:
+                    if v == 0 and t == tgt:
+                        return frozenset(facts | {('small_pos',)})
+        return facts
+    ex = Explorer(cfg, block_effect=block_effect, edge_effect=edge_effect, var_roots=set())
+    ex.run()
+    M4.paths += ex.n_states
+    for blk in full_exits:
+        bad = [st for st in ex.states.get(blk.i, ()) if ('small_pos',) not in st[1]]
+        M4.sites += 1
+        if bad:
+            M4.violation(('full-exit-with-large-pos', b.path), 'the refill loop can take the "buffer full" exit at %s on a path that neither compacted the buffer nor saw pos < %d: the buffer can be full while holding fewer than low_mark bytes, '
+                         'so fill_buf returns short look-ahead although the source has more data' % (b.loc(blk.term.sp), cl), where=b.loc(blk.term.sp), witness={'block_path': ex.witness(blk.i, bad[0])})
+        else:
+            M4.ok(sample={'buffer_full_exit_at': b.loc(blk.term.sp), 'pos_small_on_all_paths': True})
